@@ -359,3 +359,64 @@ Proof.
   intro Hx. rewrite csimple_roundtrip by exact Hx. cbn [fst].
   rewrite csimple_length_eq. apply chained_len_range. exact Hx.
 Qed.
+
+(* distinct values have distinct encodings *)
+Theorem chained_injective x y : x < 18446744073709551616 -> y < 18446744073709551616 ->
+  chained_put x = chained_put y -> x = y.
+Proof.
+  intros Hx Hy E. pose proof (chained_roundtrip x [] Hx) as Rx.
+  pose proof (chained_roundtrip y [] Hy) as Ry. rewrite E in Rx. rewrite Rx in Ry.
+  injection Ry as _ R. exact R.
+Qed.
+
+Theorem csimple_injective x y : x < 18446744073709551616 -> y < 18446744073709551616 ->
+  csimple_encode64 x = csimple_encode64 y -> x = y.
+Proof.
+  intros Hx Hy E. pose proof (csimple_roundtrip x [] Hx) as Rx.
+  pose proof (csimple_roundtrip y [] Hy) as Ry. rewrite E in Rx. rewrite Rx in Ry.
+  injection Ry as _ R. exact R.
+Qed.
+
+Theorem csimple_length_range x : x < 18446744073709551616 -> 1 <= csimple_length x <= 9.
+Proof. intro Hx. rewrite csimple_length_eq. apply chained_len_range. exact Hx. Qed.
+
+(* frame: writing the encoding at offset off of a buffer changes nothing
+   outside [off, off + length) *)
+Lemma store_frame buf off bs : (off + length bs <= length buf)%nat ->
+  firstn off (store buf off bs) = firstn off buf /\
+  skipn (off + length bs) (store buf off bs) = skipn (off + length bs) buf /\
+  length (store buf off bs) = length buf.
+Proof.
+  intro H. unfold store.
+  assert (L : length (firstn off buf) = off) by (apply firstn_length_le; lia).
+  split; [|split].
+  - rewrite firstn_app, L, Nat.sub_diag. cbn [firstn]. rewrite app_nil_r.
+    rewrite firstn_firstn. f_equal. lia.
+  - rewrite app_assoc. rewrite skipn_app.
+    rewrite app_length, L.
+    rewrite skipn_all2 by (rewrite app_length, L; lia).
+    rewrite Nat.sub_diag. reflexivity.
+  - rewrite !app_length, L, skipn_length. lia.
+Qed.
+
+Theorem chained_put_frame x buf off : x < 18446744073709551616 ->
+  (off + N.to_nat (chained_len x) <= length buf)%nat ->
+  let buf' := store buf off (chained_put x) in
+  firstn off buf' = firstn off buf /\
+  skipn (off + N.to_nat (chained_len x)) buf' = skipn (off + N.to_nat (chained_len x)) buf /\
+  length buf' = length buf.
+Proof.
+  intros Hx Hl. cbv zeta. rewrite <- (chained_put_length x Hx) in *. rewrite Nat2N.id in *.
+  apply store_frame. exact Hl.
+Qed.
+
+Theorem csimple_put_frame x buf off : x < 18446744073709551616 ->
+  (off + N.to_nat (csimple_length x) <= length buf)%nat ->
+  let buf' := store buf off (csimple_encode64 x) in
+  firstn off buf' = firstn off buf /\
+  skipn (off + N.to_nat (csimple_length x)) buf' = skipn (off + N.to_nat (csimple_length x)) buf /\
+  length buf' = length buf.
+Proof.
+  intros Hx Hl. cbv zeta. rewrite <- (csimple_put_length x Hx) in *. rewrite Nat2N.id in *.
+  apply store_frame. exact Hl.
+Qed.
